@@ -13,6 +13,10 @@ pub fn run<S: InterpreterTrait>(interpreter: &mut S) -> Result<(), RuntimeError>
     } else {
         let name = parts[0].to_string();
         let value = parts[1].to_string();
+        // the operating system does not accept these
+        if name.is_empty() || name.contains('\0') || value.contains('\0') {
+            return Err(RuntimeError::IllegalFunctionCall);
+        }
         interpreter.stdlib_mut().set_env_var(name, value);
         Ok(())
     }
